@@ -36,7 +36,7 @@ fn ifdef(name: &str, lit: &str) -> Item {
     Item::Cond { neg: false, name: name.into(), then: vec![Item::Lit(lit.into())], elsifs: vec![], els: None }
 }
 
-pub const A_KINDS: usize = 7;
+pub const A_KINDS: usize = 8;
 pub const SIG_F12: &str = "white-space-behind-include-via-macro-dropped";
 
 fn a_items(kind: usize, bname: &str) -> Vec<Item> {
@@ -47,6 +47,8 @@ fn a_items(kind: usize, bname: &str) -> Vec<Item> {
         3 => vec![Item::Cond { neg: true, name: "G".into(), then: vec![def("G", ""), Item::Text], elsifs: vec![], els: None }],
         4 => vec![Item::Text, Item::Include { file: bname.into(), style: IncStyle::Quote }, Item::Text],
         5 => vec![Item::Usage { name: "P".into(), args: None }, Item::Text],
+        // a predefined coverage constant redefined by the including file keeps its new text inside
+        7 => vec![Item::Usage { name: "SV_COV_START".into(), args: None }, Item::Text, def("SV_COV_STOP", "s2")],
         _ => vec![Item::Text, Item::Usage { name: "NOPE".into(), args: None }],
     }
 }
@@ -105,9 +107,16 @@ fn world(c: &IncCase, tag: &str, absdir: &Path) -> World {
     if c.style == 2 {
         top.push(def("INC", &format!("\"{}\"", aname_in_source)));
     }
+    if c.a_kind == 7 {
+        top.push(def("SV_COV_START", "c7"));
+    }
     top.push(Item::Text);
     top.push(Item::Include { file: aname_in_source.clone(), style: style.clone() });
     top.push(Item::Text);
+    if c.a_kind == 7 && !c.ignore {
+        top.push(Item::Usage { name: "SV_COV_START".into(), args: None });
+        top.push(Item::Usage { name: "SV_COV_STOP".into(), args: None });
+    }
     top.push(ifdef("X", "X_def"));
     top.push(ifdef("P", "P_def"));
     top.push(ifdef("G", "G_def"));
@@ -460,7 +469,7 @@ pub fn cases(tier: Tier) -> Space<IncCase> {
 
 pub fn build(tier: Tier) -> Check<'static> {
     let mut c = Check::new("C10", tier, "6/C10");
-    c.rule = "real files: a.svh present in every subset of {cwd, inc1, inc2} (copies carry different marker tokens) x 5 include-path lists x 7 contents (text, define, undef of an outer macro, include guard, nested include of b.svh, usage of an outer macro, usage of an undefined macro) x 3 directive styles (quote, angle, via macro) x once/twice x ignore_include x relative/absolute name x placements of b.svh x layouts x 3 endings of the included files (line end, none, a // comment without line end); through preprocess (strip_comments off and on) and preprocess_str; plus 27 same-line forms x ignore_include and the in-expansion `include; non-trivial = model and implementation agree on a result, distinct by construction".into();
+    c.rule = "real files: a.svh present in every subset of {cwd, inc1, inc2} (copies carry different marker tokens) x 5 include-path lists x 8 contents (text, define, undef of an outer macro, include guard, nested include of b.svh, usage of an outer macro, usage of an undefined macro, use and redefinition of predefined SV_COV_* constants) x 3 directive styles (quote, angle, via macro) x once/twice x ignore_include x relative/absolute name x placements of b.svh x layouts x 3 endings of the included files (line end, none, a // comment without line end); through preprocess (strip_comments off and on) and preprocess_str; plus 27 same-line forms x ignore_include and the in-expansion `include; non-trivial = model and implementation agree on a result, distinct by construction".into();
     c.assumptions = vec![
         "the process changes its working directory to /verif/.work/C10/cwd; file names are unique per worker thread".into(),
         "reference preprocessor models/ppref.rs with the search rule exactly as the property states it".into(),
